@@ -779,10 +779,11 @@ func isSafeForReverseSuffix(re *syntax.Regexp) bool {
 				return false // Internal anchor - not safe
 			}
 		}
-		// A leading (?m)^ is as unrepresentable in the reverse NFA as an internal
-		// anchor (it becomes an epsilon edge): the reverse scan would run past the
-		// line start. A leading \A is fine (the searcher handles the anchored case).
-		if containsLineAnchor(re.Sub[0]) {
+		// A (?m)^ or (?m)$ in the first or in the last element is as unrepresentable in
+		// the reverse NFA as an internal anchor (it becomes an epsilon edge): the reverse
+		// scan would run past the line start. A leading \A is fine (the searcher
+		// handles the anchored case).
+		if containsLineAnchor(re.Sub[0]) || containsLineAnchor(re.Sub[len(re.Sub)-1]) {
 			return false
 		}
 		return true
